@@ -118,9 +118,11 @@ TimerId TimerQueue::addTimer(TimerCallback cb,
                              double interval)
 {
   Timer* timer = new Timer(std::move(cb), when, interval);
+  // read before the hand-off: the loop thread may run and delete the timer at once
+  int64_t sequence = timer->sequence();
   loop_->runInLoop(
       std::bind(&TimerQueue::addTimerInLoop, this, timer));
-  return TimerId(timer, timer->sequence());
+  return TimerId(timer, sequence);
 }
 
 void TimerQueue::cancel(TimerId timerId)
